@@ -26,6 +26,7 @@ def mp_setup(ctx):
     outer_opts = {}
     outer_required = []
     outer_actions = []
+    order = []
 
     class OptMap:
         pass
@@ -36,9 +37,9 @@ def mp_setup(ctx):
     parser = Rec("ArgumentParser", attrs={
         "_option_string_actions": Rec("dict", methods={"keys": opt_keys, "update": lambda c, s_, a, k: outer_opts.update(a[0]) if isinstance(a[0], dict) else c.event("opts.update", a[0])}),
         "required_args": Rec("set", methods={"update": lambda c, s_, a, k: outer_required.extend(list(a[0]))}),
-        "_actions": Rec("list", methods={"extend": lambda c, s_, a, k: outer_actions.extend(a[0])}),
+        "_actions": Rec("list", methods={"extend": lambda c, s_, a, k: (order.append("members"), outer_actions.extend(a[0]))[1]}),
         "_action_groups": Rec("list", methods={"extend": lambda c, s_, a, k: c.event("groups.extend", a[0])}),
-    }, methods={"add_argument": lambda c, s_, a, k: added.append((a, dict(k)))})
+    }, methods={"add_argument": lambda c, s_, a, k: (order.append("whole-group"), added.append((a, dict(k))))[1]})
 
     def re_sub(c, a, k):
         pat, repl, text = a
@@ -58,7 +59,7 @@ def mp_setup(ctx):
     consts = {"ActionYesNo": ClassRef("ActionYesNo"), "_ActionConfigLoad": ClassRef("_ActionConfigLoad")}
     arg0 = z3.Concat(z3.StringVal("--"), prefix)
     return Setup(env={"parser": parser, "args": (arg0,), "kwargs": kwargs}, calls=calls, consts=consts,
-                 data=dict(prefix=prefix, action=action, conflict=conflict, extra_kw=extra_kw, added=added, outer_opts=outer_opts, outer_required=outer_required, outer_actions=outer_actions, arg0=arg0),
+                 data=dict(prefix=prefix, action=action, conflict=conflict, extra_kw=extra_kw, added=added, outer_opts=outer_opts, outer_required=outer_required, outer_actions=outer_actions, arg0=arg0, order=order),
                  watch={"prefix": prefix})
 
 
@@ -77,6 +78,8 @@ def mp_post(ctx, st, result):
     req = d["outer_required"]
     ctx.oblige("post", "the-required-key-of-a-moved-action-is-its-new-dest(so that a given value satisfies it)", len(req) == 1 and lift(req[0]) == lift(a.attrs["dest"]), strings=True,
                note="required_args is built from the raw prefix, the dest from prefix.replace('-','_'): they differ when the prefix contains a dash")
+    ctx.oblige("post", "the-whole-group-option-is-declared-before-the-members(sources applied in declaration order - environment, defaults - let a member setting override the whole-group value, as in the other styles)",
+               d["order"] == ["whole-group", "members"])
     ctx.oblige("post", "the-whole-group-option-is-added(--prefix loads a config for the group)", len(d["added"]) == 1 and d["added"][0][0][0] is d["arg0"] and getattr(d["added"][0][1].get("action"), "name", None) == "_ActionConfigLoad")
 
 
